@@ -28,6 +28,7 @@ type Episode struct {
 	Params map[string]string // replay/neutralisation switches; empty in exploration
 
 	mu      sync.Mutex
+	frozen  bool // set when the episode proper is over (teardown is not part of the recorded run)
 	log     []string
 	KeepLog bool
 	logHash uint64
@@ -69,6 +70,10 @@ func fnvAdd(h uint64, s string) uint64 {
 func (e *Episode) Logf(format string, a ...interface{}) {
 	s := fmt.Sprintf(format, a...)
 	e.mu.Lock()
+	if e.frozen {
+		e.mu.Unlock()
+		return
+	}
 	e.logHash = fnvAdd(e.logHash, s)
 	if e.KeepLog {
 		e.log = append(e.log, s)
@@ -113,8 +118,17 @@ func (e *Episode) Fail(oracle, format string, a ...interface{}) {
 	e.mu.Unlock()
 	if first {
 		e.Logf("VIOLATION %s: %s", oracle, msg)
+		e.Freeze()
 	}
 	e.S.poke()
+}
+
+// Freeze ends the recorded part of the episode: teardown (which lets the
+// remaining goroutines run freely) must not contribute to the event log.
+func (e *Episode) Freeze() {
+	e.mu.Lock()
+	e.frozen = true
+	e.mu.Unlock()
 }
 
 func (e *Episode) Failed() bool {
@@ -177,6 +191,11 @@ type Event struct {
 	Key    string
 	Weight int
 	Apply  func()
+	// Urgent events (a runnable goroutine, an expired deadline) are things the
+	// real system would do without delay: while one is enabled the scheduler
+	// does not offer to let time pass, so simulated time never contains
+	// scheduling slack of the simulator's own making.
+	Urgent bool
 }
 
 // Source offers enabled events.
@@ -369,7 +388,7 @@ func (s *Sched) collect() []Event {
 		s.Mu.Unlock()
 		if ok {
 			t := t
-			add(Event{Key: "run " + t.Name + " @" + site, Apply: func() { s.Release(t) }})
+			add(Event{Key: "run " + t.Name + " @" + site, Urgent: true, Apply: func() { s.Release(t) }})
 		}
 	}
 	for _, src := range s.sources {
@@ -404,7 +423,11 @@ func (s *Sched) Run(done func() bool) RunResult {
 		for i := range evs {
 			w[i] = evs[i].Weight
 		}
-		if s.PassTimeWeight > 0 {
+		urgent := false
+		for i := range evs {
+			urgent = urgent || evs[i].Urgent
+		}
+		if s.PassTimeWeight > 0 && !urgent {
 			w = append(w, s.PassTimeWeight)
 		}
 		i := s.ep.Tape.Weighted("ev", w)
@@ -477,6 +500,7 @@ func (s *Sched) AllHarnessDone() bool {
 // releases everything that is parked and waits for harness tasks to finish.
 // Returns false if some goroutine could not be drained (worker must be recycled).
 func (s *Sched) Drain() bool {
+	s.ep.Freeze()
 	for _, f := range s.ep.cleanups {
 		f()
 	}
@@ -514,3 +538,19 @@ func (s *Sched) Drain() bool {
 	}
 	return false
 }
+
+// ParkedSites lists the sites at which tasks are currently parked.
+func (s *Sched) ParkedSites() []string {
+	s.Mu.Lock()
+	defer s.Mu.Unlock()
+	var out []string
+	for _, t := range s.order {
+		if !t.Done && t.site != "" {
+			out = append(out, t.site)
+		}
+	}
+	return out
+}
+
+// AnyRunnable reports whether any event is enabled right now.
+func (s *Sched) AnyRunnable() bool { return len(s.collect()) > 0 }
